@@ -108,6 +108,9 @@ Section StepR.
   Qed.
 End StepR.
 
+Lemma forallb_ext_seq (f g : nat -> bool) (l : list nat) : (forall r, f r = g r) -> forallb f l = forallb g l.
+Proof. intros H. induction l as [|x tl IH]; [reflexivity|]. cbn [forallb]. rewrite IH, H. reflexivity. Qed.
+
 Lemma capplyR_ext m (f g : nat -> RC) r : (forall k, f k = g k) -> capplyR m f r = capplyR m g r.
 Proof.
   intros H. induction m as [|[[r' c] x] tl IH]; [reflexivity|].
@@ -341,6 +344,184 @@ Section StepCov.
     split; [intros r; reflexivity|]. split; intros k; reflexivity.
   Qed.
 End StepCov.
+
+(* ---------------- runs: every step of a run (C04, C17) ---------------- *)
+Section Runs.
+  Variable a : nat -> R.
+  Variable n : nat.
+  Variable es : list edgeR.
+  Variable fixed : list nat.
+  Variable solve : (nat -> R) -> (nat -> R).
+  Variable tlink tlink2 : nat -> RC.
+  Variable repin : option RC.
+  Hypothesis tlink_same : forall r, tlink r = tlink2 r.
+
+  (* observable content of two step results agrees *)
+  Definition out_same (o o' : step_out OpsR) : Prop :=
+    (forall r, so_psi _ o' r = so_psi _ o r) /\
+    (forall r, ob_mu _ (so_obs _ o') r = ob_mu _ (so_obs _ o) r) /\
+    (forall k, ob_Js _ (so_obs _ o') k = ob_Js _ (so_obs _ o) k) /\
+    (forall k, ob_Jn _ (so_obs _ o') k = ob_Jn _ (so_obs _ o) k).
+
+  Lemma euler_site_ext U (psi psi2 : nat -> RC) eps gamma u dt r :
+    (forall k, psi k = psi2 k) ->
+    euler_site OpsR a es fixed tlink U psi eps gamma u dt r = euler_site OpsR a es fixed tlink2 U psi2 eps gamma u dt r.
+  Proof.
+    intros H. unfold euler_site. rewrite (capplyR_ext _ psi psi2 r H), (H r), (tlink_same r). reflexivity.
+  Qed.
+
+  Lemma observables_ext U (p p2 : nat -> RC) muB dAdt :
+    (forall r, p r = p2 r) ->
+    let o := solve_for_observables OpsR a es solve U p muB dAdt in
+    let o2 := solve_for_observables OpsR a es solve U p2 muB dAdt in
+    (forall r, ob_mu _ o2 r = ob_mu _ o r) /\ (forall k, ob_Js _ o2 k = ob_Js _ o k) /\ (forall k, ob_Jn _ o2 k = ob_Jn _ o k).
+  Proof.
+    intros H o o2. unfold o, o2, solve_for_observables. cbn [ob_mu ob_Js ob_Jn].
+    rewrite (supercurrent_ext es U p p2 H). repeat split; intros; reflexivity.
+  Qed.
+
+  (* the step only looks at the values of psi and of the phase factors: pointwise equal inputs give pointwise equal
+     results *)
+  Lemma step_ext U (psi psi2 : nat -> RC) eps gamma u dt muB dAdt :
+    (forall r, psi r = psi2 r) ->
+    match step OpsR a n es fixed solve tlink repin U psi eps gamma u dt muB dAdt,
+          step OpsR a n es fixed solve tlink2 repin U psi2 eps gamma u dt muB dAdt with
+    | None, None => True
+    | Some o, Some o2 => out_same o o2
+    | _, _ => False
+    end.
+  Proof.
+    intros H. unfold step, euler_all.
+    assert (Hb : forallb (fun r => match euler_site OpsR a es fixed tlink2 U psi2 eps gamma u dt r
+                                   with Some _ => true | None => false end) (seq 0 n)
+               = forallb (fun r => match euler_site OpsR a es fixed tlink U psi eps gamma u dt r
+                                   with Some _ => true | None => false end) (seq 0 n)).
+    { apply forallb_ext_seq. intros r. rewrite (euler_site_ext U psi psi2 eps gamma u dt r H). reflexivity. }
+    rewrite Hb. clear Hb. destruct (forallb _ (seq 0 n)); cbv beta iota; [|exact I].
+    set (p := fun r => match euler_site OpsR a es fixed tlink U psi eps gamma u dt r with Some (_, q) => q | None => psi r end).
+    set (p2 := fun r => match euler_site OpsR a es fixed tlink2 U psi2 eps gamma u dt r with Some (_, q) => q | None => psi2 r end).
+    assert (Ep : forall r, p2 r = p r).
+    { intros r. unfold p, p2. rewrite <- (euler_site_ext U psi psi2 eps gamma u dt r H).
+      destruct (euler_site OpsR a es fixed tlink U psi eps gamma u dt r) as [[x q]|]; [reflexivity|symmetry; apply H]. }
+    set (q := match repin with Some v => fun r => if is_fixed fixed r then v else p r | None => p end).
+    set (q2 := match repin with Some v => fun r => if is_fixed fixed r then v else p2 r | None => p2 end).
+    assert (Eq : forall r, q2 r = q r).
+    { intros r. unfold q, q2. destruct repin as [v|]; [destruct (is_fixed fixed r); [reflexivity|apply Ep]|apply Ep]. }
+    unfold out_same. cbn [so_psi so_obs]. split; [exact Eq|].
+    apply (observables_ext U q q2 muB dAdt). intros r. symmetry. apply Eq.
+  Qed.
+End Runs.
+
+Section RunCov.
+  Variable a : nat -> R.
+  Variable n : nat.
+  Variable es : list edgeR.
+  Variable fixed : list nat.
+  Variable solve : (nat -> R) -> (nat -> R).
+  Variable expi : R -> RC.
+  Variable gz : nat -> RC.
+  Hypothesis gz_unit : forall i, cabs2 OpsR (gz i) = 1.
+  Hypothesis fixed_nodup : NoDup fixed.
+
+  Definition gauge_in (i : step_in OpsR) : step_in OpsR :=
+    {| si_U := gauge_links gz es (si_U _ i); si_eps := si_eps _ i; si_dt := si_dt _ i;
+       si_muB := si_muB _ i; si_dAdt := si_dAdt _ i |}.
+  Definition out_gauged (o o' : step_out OpsR) : Prop :=
+    (forall r, so_psi _ o' r = cxmul (gz r) (so_psi _ o r)) /\
+    (forall r, ob_mu _ (so_obs _ o') r = ob_mu _ (so_obs _ o) r) /\
+    (forall k, ob_Js _ (so_obs _ o') k = ob_Js _ (so_obs _ o) k) /\
+    (forall k, ob_Jn _ (so_obs _ o') k = ob_Jn _ (so_obs _ o) k).
+  Definition entry_gauged (x x' : option (step_out OpsR)) : Prop :=
+    match x, x' with
+    | None, None => True
+    | Some o, Some o' => out_gauged o o'
+    | _, _ => False
+    end.
+
+  (* C04, every step of a run: two runs whose link variables are related by the gauge function at every step
+     (time-dependent potentials included), whose initial order parameters are related by it and whose initial
+     potentials agree refuse the same steps and produce, step by step, the same potential and currents and
+     gauge-related order parameters.  The phase factor exp(-i mu dt) of each step is computed from the previous
+     step's potential in both runs. *)
+  Theorem run_covariant gamma u : forall l psi psiG mu muG,
+    Forall (fun i => length (si_U _ i) = length es) l ->
+    (forall r, psiG r = cxmul (gz r) (psi r)) -> (forall r, muG r = mu r) ->
+    Forall2 entry_gauged
+      (run_steps OpsR a n es fixed solve None expi gamma u psi mu l)
+      (run_steps OpsR a n es fixed solve None expi gamma u psiG muG (map gauge_in l)).
+  Proof.
+    induction l as [|i tl IH]; intros psi psiG mu muG HL Hpsi Hmu; [constructor|].
+    inversion HL as [|? ? HLi HLtl]; subst.
+    cbn [map run_steps gauge_in si_U si_eps si_dt si_muB si_dAdt].
+    set (tl1 := fun r => expi (o_mul OpsR (mu r) (si_dt _ i))).
+    set (tl2 := fun r => expi (o_mul OpsR (muG r) (si_dt _ i))).
+    assert (Et : forall r, tl1 r = tl2 r) by (intros r; unfold tl1, tl2; rewrite Hmu; reflexivity).
+    pose proof (step_covariant a n es fixed solve tl1 gz gz_unit fixed_nodup
+                  (si_U _ i) psi (si_eps _ i) gamma u (si_dt _ i) (si_muB _ i) (si_dAdt _ i) HLi) as C.
+    pose proof (step_ext a n es fixed solve tl1 tl2 None Et (gauge_links gz es (si_U _ i))
+                  (gauge_psi gz psi) psiG (si_eps _ i) gamma u (si_dt _ i) (si_muB _ i) (si_dAdt _ i)) as E.
+    specialize (E ltac:(intros r; unfold gauge_psi; symmetry; apply Hpsi)).
+    destruct (step OpsR a n es fixed solve tl1 None (si_U _ i) psi (si_eps _ i) gamma u (si_dt _ i) (si_muB _ i) (si_dAdt _ i))
+      as [o|];
+    destruct (step OpsR a n es fixed solve tl1 None (gauge_links gz es (si_U _ i)) (gauge_psi gz psi) (si_eps _ i) gamma u
+                   (si_dt _ i) (si_muB _ i) (si_dAdt _ i)) as [oG|];
+    destruct (step OpsR a n es fixed solve tl2 None (gauge_links gz es (si_U _ i)) psiG (si_eps _ i) gamma u
+                   (si_dt _ i) (si_muB _ i) (si_dAdt _ i)) as [o2|]; try contradiction.
+    - destruct C as (C1 & C2 & C3 & C4). destruct E as (E1 & E2 & E3 & E4).
+      assert (G : out_gauged o o2).
+      { unfold out_gauged. repeat split; intros.
+        - rewrite E1. apply C1.
+        - rewrite E2. apply C2.
+        - rewrite E3. apply C3.
+        - rewrite E4. apply C4. }
+      constructor; [exact G|]. destruct G as (G1 & G2 & _). apply IH; [exact HLtl|exact G1|exact G2].
+    - constructor; [exact I|constructor].
+  Qed.
+End RunCov.
+
+Section Forever.
+  Variable a : nat -> R.
+  Variable n : nat.
+  Variable es : list edgeR.
+  Variable solve : (nat -> R) -> (nat -> R).
+  Variable expi : R -> RC.
+  Hypothesis solve_zero : forall f, (forall r, f r = 0) -> forall r, solve f r = 0.
+  Hypothesis expi_zero : expi 0 = (1, 0).
+
+  Definition stat_in (dt : R) : step_in OpsR :=
+    {| si_U := ones es; si_eps := fun _ => 1; si_dt := dt; si_muB := fun _ => 0; si_dAdt := fun _ => 0 |}.
+  Definition entry_stationary (x : option (step_out OpsR)) : Prop :=
+    exists o, x = Some o /\ (forall r, so_psi _ o r = (1, 0)) /\ (forall r, ob_mu _ (so_obs _ o) r = 0) /\
+              (forall k, ob_Js _ (so_obs _ o) k = 0) /\ (forall k, ob_Jn _ (so_obs _ o) k = 0).
+
+  (* C17, every step of a run: with zero field, no bias and eps = 1 the uniform state (psi = 1, mu = 0) is reproduced
+     by every step of a run with an arbitrary sequence of time steps: no step is refused, no current, no potential *)
+  Theorem stationary_forever gamma u : u <> 0 -> forall dts psi mu,
+    (forall r, psi r = (1, 0)) -> (forall r, mu r = 0) ->
+    Forall entry_stationary (run_steps OpsR a n es [] solve None expi gamma u psi mu (map stat_in dts)).
+  Proof.
+    intros Hu. induction dts as [|dt tl IH]; intros psi mu Hpsi Hmu; [constructor|].
+    cbn [map run_steps stat_in si_U si_eps si_dt si_muB si_dAdt].
+    set (tlk := fun r => expi (o_mul OpsR (mu r) dt)).
+    assert (Tz : forall r, tlk r = (1, 0)).
+    { intros r. unfold tlk. rewrite Hmu. cbn [o_mul OpsR]. rewrite Rmult_0_l. exact expi_zero. }
+    destruct (uniform_stationary a n es solve tlk solve_zero Tz gamma u dt Hu) as (o & Eo & P1 & P2 & P3 & P4).
+    pose proof (step_ext a n es [] solve tlk tlk None (fun r => eq_refl) (ones es) (psi1) psi (fun _ => 1) gamma u dt
+                  (fun _ => 0) (fun _ => 0)) as E.
+    specialize (E ltac:(intros r; unfold psi1; symmetry; apply Hpsi)).
+    rewrite Eo in E.
+    destruct (step OpsR a n es [] solve tlk None (ones es) psi (fun _ => 1) gamma u dt (fun _ => 0) (fun _ => 0))
+      as [o2|]; [|contradiction].
+    destruct E as (E1 & E2 & E3 & E4).
+    constructor.
+    - exists o2. split; [reflexivity|]. repeat split; intros.
+      + rewrite E1. apply P1.
+      + rewrite E2. apply P2.
+      + rewrite E3. apply P3.
+      + rewrite E4. apply P4.
+    - apply IH; intros r; [rewrite E1; apply P1|rewrite E2; apply P2].
+  Qed.
+End Forever.
 
 (* ---------------- update_mu_boundary: the change-only cache is coherent (C01) ---------------- *)
 Section Cache.
